@@ -128,28 +128,31 @@ def coq_jarg(a):
 def part_parse_args(ctx, part):
     r = ctx.rng("pargs")
     n = ctx.n(500, 5000)
-    args = [gen_jarg(r) for _ in range(n)]
+    lists = [[gen_jarg(r) for _ in range(r.choice([1, 1, 2, 3, 4]))] for _ in range(n)]
     # the pinned refutation witnesses always run first
-    args = [{"types": ["?Int|String"], "key": "", "ast": False, "def": False},
-            {"types": ["*Int|String"], "key": "", "ast": False, "def": False},
-            {"types": ["?[Int]"], "key": "k:", "ast": False, "def": False}] + args
-    outs = C.vh_batch([{"op": "parse_args", "args": [jarg_json(a)]} for a in args])
+    lists = [[{"types": ["?Int|String"], "key": "", "ast": False, "def": False}],
+             [{"types": ["*Int|String"], "key": "", "ast": False, "def": False}],
+             [{"types": ["?[Int]"], "key": "k:", "ast": False, "def": False}],
+             [{"types": ["?Int"], "key": "", "ast": False, "def": False},
+              {"types": ["String"], "key": "", "ast": False, "def": False},
+              {"types": ["Int"], "key": "k:", "ast": False, "def": False}]] + lists
+    outs = C.vh_batch([{"op": "parse_args", "args": [jarg_json(a) for a in l]} for l in lists])
     terms, kept = [], []
-    for a, o in zip(args, outs):
+    for l, o in zip(lists, outs):
         part.evaluations += 1
-        key = json.dumps(a, sort_keys=True)
-        if any(any(ch in s for ch in "?*[|") for s in a["types"]) or len(a["types"]) > 1:
+        key = json.dumps(l, sort_keys=True)
+        if any(any(any(ch in s for ch in "?*[|") for s in a["types"]) or len(a["types"]) > 1 for a in l):
             part.nontrivial.add(key)
-        part.count("types=%d" % min(len(a["types"]), 2))
+        part.count("args=%d" % len(l))
         if "panic" in o or "error" in o:
-            part.failures.append(Failure("parse_args_panic", "parseArguments fails on %s: %s" % (key, o), {"arg": a}))
+            part.failures.append(Failure("parse_args_panic", "parseArguments fails on %s: %s" % (key, o), {"args": l}))
             continue
-        terms.append("(%s, %s)" % (coq_jarg(a), C.coq_ty(o["ts"][0])))
-        kept.append(a)
-        part.sample({"argument": jarg_json(a), "impl_tag": o["ts"][0]["tag"]})
+        terms.append("(%s, %s)" % (C.coq_list([coq_jarg(a) for a in l]), C.coq_list([C.coq_ty(t) for t in o["ts"]])))
+        kept.append(l)
+        part.sample({"arguments": [jarg_json(a) for a in l], "impl_tags": [t["tag"] for t in o["ts"]]})
     defs = "From RT Require Import Proofs.C21P.\n"
-    bad = corr.coq_mismatches(["Model.Config"], "jarg * ty",
-                              "fun c => ty_eqb (parse_argument %s (fst c)) (snd c)" % VARIANT, terms, defs=defs)
+    bad = corr.coq_mismatches(["Model.Config"], "list jarg * list ty",
+                              "fun c => list_eqb ty_eqb (parse_arguments %s (fst c)) (snd c)" % VARIANT, terms, defs=defs)
     for i in bad:
         part.mismatches.append({"fn": "parseArguments", "input": kept[i], "variant": VARIANT})
     part.agreed = len(terms) - len(bad)
@@ -239,29 +242,41 @@ def notation_pairs(r, n):
 
 
 def part_impl_pairs(ctx, part):
-    """Implementation-side predicate: both notations parse to the same T (all fields)."""
+    """Implementation-side predicate: both notations parse to the same T (all fields); an argument pair is
+    embedded in a random list of other arguments, and the whole lists must parse identically."""
     r = ctx.rng("pairs")
     pairs = notation_pairs(r, ctx.n(400, 4000))
-    reqs = []
+    reqs, shown = [], []
     for kind, a, b in pairs:
-        for x in (a, b):
-            reqs.append({"op": "parse_ret", "ret": x["ret"]} if "ret" in x else {"op": "parse_args", "args": [x["arg"]]})
+        if "ret" in a:
+            reqs.append({"op": "parse_ret", "ret": a["ret"]})
+            reqs.append({"op": "parse_ret", "ret": b["ret"]})
+            shown.append((a, b))
+        else:
+            pre = [jarg_json(gen_jarg(r)) for _ in range(r.choice([0, 0, 1, 2]))]
+            post = [jarg_json(gen_jarg(r)) for _ in range(r.choice([0, 1, 1, 2]))]
+            la, lb = pre + [a["arg"]] + post, pre + [b["arg"]] + post
+            reqs.append({"op": "parse_args", "args": la})
+            reqs.append({"op": "parse_args", "args": lb})
+            shown.append(({"args": la}, {"args": lb}))
     outs = C.vh_batch(reqs)
     for i, (kind, a, b) in enumerate(pairs):
         oa, ob = outs[2 * i], outs[2 * i + 1]
+        sa, sb = shown[i]
         part.evaluations += 1
         part.count(kind)
-        part.nontrivial.add(json.dumps([a, b], sort_keys=True))
+        part.nontrivial.add(json.dumps([sa, sb], sort_keys=True))
         if oa == ob and "panic" not in oa:
             part.agreed += 1
         else:
             part.failures.append(Failure("notation_pair_differs",
-                                         "%s: %s and %s parse to different types" % (kind, json.dumps(a), json.dumps(b)),
-                                         {"kind": kind, "compact": a, "long": b}))
-        part.sample({"kind": kind, "compact": a, "long": b})
+                                         "%s: %s and %s parse to different types" % (kind, json.dumps(sa), json.dumps(sb)),
+                                         {"kind": kind, "compact": sa, "long": sb}))
+        part.sample({"kind": kind, "compact": sa, "long": sb})
 
 
-ARGS_POOL = ["", "1", '"s"', ":s", "1.5", "nil", "[1]", '["s"]', "1, 2", '1, "s"', "true", "k"]
+EXTRA_ARGS = [[], [{"type": "String"}], [], [{"type": "Int", "key": "k:"}], [{"type": "Symbol"}, {"type": "Int", "key": "z:"}]]
+ARGS_POOL = ["", "1", '"s"', ":s", "1.5", "nil", "[1]", '["s"]', "1, 2", '1, "s"', "true", "k", '1, "s", k: 2', '"s", :a, z: 1', "1, k: 1", '"a", "b"']
 
 
 def part_e2e(ctx, part):
@@ -277,7 +292,8 @@ def part_e2e(ctx, part):
                 if "ret" in x:
                     ms.append({"name": name, "arguments": [], "return_type": x["ret"]})
                 else:
-                    ms.append({"name": name, "arguments": [x["arg"]], "return_type": {"type": "Int"}})
+                    extra = EXTRA_ARGS[i % len(EXTRA_ARGS)]
+                    ms.append({"name": name, "arguments": [x["arg"]] + extra, "return_type": {"type": "Int"}})
             if "ret" in a:
                 lines.append("dbtp k.%s" % name)
                 lines.append("k.%s(1)" % name)
